@@ -49,13 +49,17 @@ def is_twitter_url(url):
 
 
 def normalize_screen_name(username):
-    if username in TWITTER_SCREEN_NAME_BLACKLIST:
-        return None
-
     if username.startswith("@"):
         username = username[1:]
 
-    return username.lower()
+    username = username.lower()
+
+    # NOTE: tested on the normalized name ("twitter.com/I", "/@explore"),
+    # that cannot be empty ("twitter.com/@")
+    if not username or username in TWITTER_SCREEN_NAME_BLACKLIST:
+        return None
+
+    return username
 
 
 def parse_twitter_url(url):
@@ -83,7 +87,7 @@ def parse_twitter_url(url):
         user_screen_name = normalize_screen_name(path[0])
 
         if user_screen_name is None:
-            if len(path) == 3 and path[0] == "i" and path[1] == "lists":
+            if len(path) == 3 and path[0].lower() == "i" and path[1] == "lists":
                 return TwitterList(id=path[2])
             return None
 
